@@ -362,6 +362,57 @@ class Undecidable(Exception):
     pass
 
 
+class Vec(tuple):
+    """A small numeric vector standing for a numpy array in eval_small: elementwise comparison and arithmetic with scalars / vectors of equal length, and the
+    reductions min / max / any / all / sum / prod."""
+
+    def _zip(self, other):
+        if isinstance(other, Vec):
+            if len(other) != len(self):
+                raise Undecidable("vector lengths")
+            return list(zip(self, other))
+        if isinstance(other, (int, float, bool)):
+            return [(x, other) for x in self]
+        raise Undecidable("vector operand")
+
+    def _map(self, other, f):
+        return Vec(f(a, b) for a, b in self._zip(other))
+
+    def __gt__(self, o):
+        return self._map(o, lambda a, b: a > b)
+
+    def __ge__(self, o):
+        return self._map(o, lambda a, b: a >= b)
+
+    def __lt__(self, o):
+        return self._map(o, lambda a, b: a < b)
+
+    def __le__(self, o):
+        return self._map(o, lambda a, b: a <= b)
+
+    def __eq__(self, o):
+        return self._map(o, lambda a, b: a == b)
+
+    def __ne__(self, o):
+        return self._map(o, lambda a, b: a != b)
+
+    __hash__ = tuple.__hash__
+
+    def __sub__(self, o):
+        return self._map(o, lambda a, b: a - b)
+
+    def __add__(self, o):
+        return self._map(o, lambda a, b: a + b)
+
+    def __mul__(self, o):
+        return self._map(o, lambda a, b: a * b)
+
+    def __bool__(self):
+        if len(self) == 1:
+            return bool(self[0])
+        raise Undecidable("truth value of a vector with more than one element is ambiguous")
+
+
 def eval_small(e, env):
     """Evaluate a side-effect-free expression of a small language (names bound in env, constants, set / tuple / list literals and constructors, set algebra and
     set methods, len / all / any / min / max / abs / sorted, arithmetic, comparisons incl. chains and membership, boolean operators, conditional expressions,
@@ -405,6 +456,15 @@ def eval_small(e, env):
         return eval_small(e.body, env) if eval_small(e.test, env) else eval_small(e.orelse, env)
     if isinstance(e, ast.BinOp):
         a, b = eval_small(e.left, env), eval_small(e.right, env)
+        if isinstance(a, Vec) or isinstance(b, Vec):
+            va, vb = (a, b) if isinstance(a, Vec) else (b, a)
+            if isinstance(e.op, ast.Add):
+                return va + vb
+            if isinstance(e.op, ast.Mult):
+                return va * vb
+            if isinstance(e.op, ast.Sub) and isinstance(a, Vec):
+                return a - b
+            raise Undecidable("vector operator")
         sets = isinstance(a, (set, frozenset)) and isinstance(b, (set, frozenset))
         nums = all(isinstance(x, (int, float)) and not isinstance(x, bool) for x in (a, b))
         try:
@@ -447,6 +507,10 @@ def eval_small(e, env):
                          ast.Gt: lambda x, y: x > y, ast.GtE: lambda x, y: x >= y}[type(op)](left, right)
             except (TypeError, KeyError):
                 raise Undecidable("comparison")
+            if isinstance(r, Vec):
+                if len(e.ops) == 1:
+                    return r
+                raise Undecidable("chained comparison of vectors")
             if not r:
                 return False
             left = right
@@ -456,6 +520,20 @@ def eval_small(e, env):
             return eval_small(e.value, env)[e.slice.value]
         except Exception:
             raise Undecidable("subscript")
+    if isinstance(e, ast.Call) and not e.keywords and call_name(e) in ("min", "max", "any", "all", "sum", "prod") and (
+            (isinstance(e.func, ast.Attribute) and not e.args and not (isinstance(e.func.value, ast.Name) and e.func.value.id in ("np", "numpy")))
+            or (isinstance(e.func, ast.Attribute) and isinstance(e.func.value, ast.Name) and e.func.value.id in ("np", "numpy") and len(e.args) == 1)):
+        # reductions of a vector: v.min(), np.any(v > 1), ...
+        v = eval_small(e.func.value if not e.args else e.args[0], env)
+        if isinstance(v, Vec):
+            f = call_name(e)
+            if f == "prod":
+                out = 1
+                for x in v:
+                    out *= x
+                return out
+            return {"min": min, "max": max, "any": any, "all": all, "sum": sum}[f](tuple(v))
+        raise Undecidable("reduction of a non-vector")
     if isinstance(e, ast.Call) and not e.keywords:
         f = call_name(e)
         if isinstance(e.func, ast.Name) and f in ("set", "frozenset", "tuple", "list", "len", "all", "any", "bool", "sorted", "min", "max", "abs", "sum") and len(e.args) >= 1:
@@ -483,6 +561,16 @@ def eval_small(e, env):
                 return {"len": len, "all": all, "any": any, "bool": bool, "min": min, "max": max, "abs": abs, "sum": sum}[f](args[0])
             except Exception:
                 raise Undecidable("call " + f)
+        if isinstance(e.func, ast.Attribute) and f in ("strip", "lstrip", "rstrip", "isspace", "lower", "upper", "startswith", "endswith", "split") and len(e.args) <= 1:
+            recv = eval_small(e.func.value, env)
+            if not isinstance(recv, str):
+                raise Undecidable("string method on a non-string")
+            args = [eval_small(x, env) for x in e.args]
+            try:
+                r = getattr(recv, f)(*args)
+            except Exception:
+                raise Undecidable("string method")
+            return tuple(r) if isinstance(r, list) else r
         if isinstance(e.func, ast.Attribute) and f in ("issubset", "issuperset", "difference", "intersection", "isdisjoint", "union", "symmetric_difference") and len(e.args) == 1:
             recv = eval_small(e.func.value, env)
             if not isinstance(recv, (set, frozenset)):
